@@ -210,12 +210,15 @@ def fresh_process_parse(text):
     return json.loads(r.stdout) if r.returncode == 0 else ('failed', r.stderr[-200:])
 
 
+# characters that str.splitlines() treats as line ends but BareScript does not (only \n and \r\n end a line)
+ODD = ['\x0c', '\x0b', '\x1c', '\x1d', '\x1e', '\x85', '\u2028', '\u2029', '\r']
 EXTRA_TOKEN_LINES = [
     ('', [(None, 'lbl'), ('opt', ':')]), ('', [(None, 'jump'), ('req', 'lbl')]),
     ('', [(None, 'jumpif'), ('opt', '('), ('opt', 'xx'), ('opt', '>'), ('opt', '1'), ('opt', ')'), ('req', 'lbl')]),
     ('', [(None, 'include'), ('req', "'a b.bare'")]), ('', [(None, 'include'), ('req', '<args.bare>')]),
     ('', [(None, 'zz'), ('opt', '='), ('opt', "'it\\'s # not a comment'")]), ('', [(None, 'zz'), ('opt', '='), ('opt', '[a b]'), ('opt', '+'), ('opt', '1')]),
-]
+] + [('', [(None, 'zz'), ('opt', '='), ('opt', "'page%sbreak'" % c), ('opt', '+'), ('opt', 'yy')]) for c in ODD] + \
+    [('', [(None, '# comment with %s zz = 2' % c)]) for c in ODD[:8]]
 
 
 def render_tight(lines):
@@ -313,6 +316,30 @@ def run_shard(ctx, spec):
                 ctx.violation(Violation('parsing %s in a fresh process gives a different model' % name,
                                         {'kind': 'fresh', 'name': name}, 'fresh-process'))
             ctx.case('fresh:' + name, True, ['fresh-process'], {'script': name})
+        # texts that differ only in white space INSIDE a string literal or a bracketed name are different programs; parsing one must not
+        # influence the other (no cache keyed on a white-space-normalised text)
+        rnd = random.Random(ctx.seed * 53)
+        for i in range(400):
+            w1, w2 = rnd.sample([' ', '  ', '\t', ' \t', '   '], 2)
+            form = rnd.choice(["'a%sb' + cc", '[col%sname] * 2', "fn('x%sy', 1)", "if(aa, 'p%sq', 'r')", '"d%se" == zz'])
+            t1, t2 = form % w1, form % w2
+            stmt = rnd.choice(['%s', 'vv = %s', 'return %s', 'if %s:\nendif'])
+            try:
+                if rnd.random() < 0.5:
+                    a1 = impl.bs.parse_expression(t1)
+                    a2 = impl.bs.parse_expression(t2)
+                    a3 = impl.bs.parse_expression(t1)
+                else:
+                    a1 = impl.bs.parse_script(stmt % t1)
+                    a2 = impl.bs.parse_script(stmt % t2)
+                    a3 = impl.bs.parse_script(stmt % t1)
+            except Exception as e:  # pylint: disable=broad-except
+                ctx.violation(Violation('parsing %r raised %s' % (t1, type(e).__name__), {'kind': 'twins', 't1': t1, 't2': t2}, 'twins-raise'))
+                continue
+            if a1 != a3 or a1 == a2:
+                ctx.violation(Violation('%r and %r (white space inside a literal differs) parse to %r / %r / %r: a parse depends on an earlier call' % (t1, t2, a1, a2, a3),
+                                        {'kind': 'twins', 't1': t1, 't2': t2}, 'whitespace-twins'))
+            ctx.case(digest('tw' + t1 + t2 + stmt), True, ['whitespace-twins'])
         # parse_expression: deterministic and stateless
         exprs = ["a + b * 2", "if(x, 'y', [z z])", "-fn(1, 2.5e+3) ** 2 || !q"]
         first = [impl.bs.parse_expression(e) for e in exprs]
